@@ -237,6 +237,53 @@ def real_assemble(prog, reserved=(), share_seed=None, private=False, twice=False
         return {"err": "unrenderable:" + type(e).__name__}, None
 
 
+def meaning_snapshot(cmds):
+    """the values of the caller's command objects, argument brackets merged (the assembler merges
+    `instr(args) ops` into `instr args ops` in place — the same meaning)"""
+    out = []
+    for c in cmds:
+        if isinstance(c, BranchLabel):
+            out.append({"l": c.name})
+        else:
+            out.append({"m": c.instruction.name.lower(), "o": [op_json(a) for a in c.args] + [op_json(o) for o in c.operands]})
+    return out
+
+
+def reuse_oracle(prog, prefix, suffix, reserved=()):
+    """The caller's IR objects are inputs, not scratch.  (1) After `assemble_subroutine` the caller's
+    own ICmd / BranchLabel objects still mean what they meant.  (2) The SAME objects placed in a
+    DIFFERENT program (commands prepended / appended, so labels sit at other indices) assemble like
+    fresh copies of that program.  Returns None or a description (model-free, real vs real)."""
+    objs = list(to_real(prog)._commands)
+    before = meaning_snapshot(objs)
+    kw = {}
+    if reserved:
+        kw["reserved_registers"] = [O.Register(RegisterName(b), i) for (b, i) in reserved]
+    try:
+        T.assemble_subroutine(ProtoSubroutine(commands=list(objs), netqasm_version=(0, 0), app_id=0), **kw)
+    except Exception:  # noqa: BLE001
+        return None
+    after = meaning_snapshot(objs)
+    if before != after:
+        bad = [k for k, (x, y) in enumerate(zip(before, after)) if x != y]
+        return {"what": "assemble_subroutine changes the meaning of the caller's IR objects",
+                "at": bad[:3], "before": [before[k] for k in bad[:3]], "after": [after[k] for k in bad[:3]]}
+    prog2 = prefix + prog + suffix
+    fresh = real_assemble(prog2, reserved)[0]
+    pre_objs = list(to_real(prefix)._commands)
+    suf_objs = list(to_real(suffix)._commands)
+    try:
+        sub2 = T.assemble_subroutine(
+            ProtoSubroutine(commands=pre_objs + objs + suf_objs, netqasm_version=(0, 0), app_id=0), **kw)
+        got = {"ok": [instr_json(i) for i in sub2.instructions]}
+    except Exception as e:  # noqa: BLE001
+        got = {"err": classify_error(e)}
+    if got != fresh:
+        return {"what": "re-using the caller's ICmd objects in another program gives a different subroutine "
+                        "than fresh copies", "fresh_objects": fresh, "reused_objects": got}
+    return None
+
+
 def duplicate_some(rng, prog):
     """programs that build IR reuse what they built: repeat some commands later in the program and
     reuse some bracket operands, so that `to_real(..., share_seed)` finds equal values to share"""
@@ -680,6 +727,64 @@ def gen_wild_program(rng, max_len=14, text_safe=False):
     return prog
 
 
+# macro KEYS that are easy to confuse (keys are variable names: no regex metacharacters are legal)
+MACRO_KEY_FAMILIES = [
+    ["n", "N", "n1", "N1", "nn", "nN"],                     # differ only in case / prefix chains
+    ["ms", "MS", "Ms", "ms1", "ms_"],
+    ["i", "I", "i2", "I2", "i_2", "i22"],
+    ["set", "SET", "jmp", "add", "array"],                  # equal to mnemonics
+    ["R1", "r1", "Q0", "q0", "M0", "R"],                     # equal to registers
+    ["key" + "x" * 40, "key" + "x" * 41, "KEY" + "x" * 40],  # long
+    ["a", "A", "a1", "A1", "a_", "A_", "ab", "aB", "Ab"],
+]
+
+
+def tokenwise_reference(lines, macros):
+    """What macro substitution means (from the statement, no model): every use `$name` — `$`
+    followed by the longest run of letters, digits and underscores — is replaced by the value of
+    the macro whose key is exactly `name`; everything else is kept."""
+    table = {}
+    for k, v in macros:
+        table.setdefault(k, v.strip("{}"))
+    ident = set("abcdefghijklmnopqrstuvwxyzABCDEFGHIJKLMNOPQRSTUVWXYZ0123456789_")
+    out = []
+    for line in lines:
+        res, i = [], 0
+        while i < len(line):
+            if line[i] == "$":
+                j = i + 1
+                while j < len(line) and line[j] in ident:
+                    j += 1
+                name = line[i + 1:j]
+                res.append(table[name] if name in table else line[i:j])
+                i = j
+            else:
+                res.append(line[i])
+                i += 1
+        out.append("".join(res))
+    return out
+
+
+def tokenwise_applicable(lines, macros):
+    """hypotheses of `macros_tokenwise`: no value contains `$` or a newline, and no use is directly followed by `$`"""
+    if any("$" in v or "\n" in v for _, v in macros):
+        return False
+    ident = set("abcdefghijklmnopqrstuvwxyzABCDEFGHIJKLMNOPQRSTUVWXYZ0123456789_")
+    for line in lines:
+        i = 0
+        while i < len(line):
+            if line[i] == "$":
+                j = i + 1
+                while j < len(line) and line[j] in ident:
+                    j += 1
+                if j < len(line) and line[j] == "$":
+                    return False
+                i = j
+            else:
+                i += 1
+    return True
+
+
 def gen_macros(rng, prog):
     """macro definitions whose values are whole tokens of the program; keys include names that
     are prefixes of each other"""
@@ -701,7 +806,11 @@ def gen_macros(rng, prog):
             elif "s" in o:
                 toks.add("@" + str(o["s"][0]))
     toks = sorted(toks)
-    keys = ["a", "a1", "a_b", "ab", "q", "q0", "ms", "i", "i2", "x", "x_", "R", "Rr"]
+    keys = rng.choice(MACRO_KEY_FAMILIES + [["a", "a1", "a_b", "ab", "q", "q0", "ms", "i", "i2", "x", "x_", "R", "Rr"]])
+    keys = list(keys)
+    if rng.random() < 0.4:
+        keys += rng.choice(MACRO_KEY_FAMILIES)
+    keys = list(dict.fromkeys(keys))
     rng.shuffle(keys)
     out = []
     for k in keys[:rng.randrange(0, 6)]:
